@@ -1,5 +1,830 @@
 package circuitsim
 
-import "verif/simcore"
+import (
+	"fmt"
+	"runtime/debug"
+	"sort"
+	"strings"
+	"sync"
+	"time"
 
-func RunRace(r *simcore.Run, thorough bool) { RunSeq(r, false) }
+	"github.com/anishathalye/porcupine"
+
+	"verif/simcore"
+)
+
+// The race arm: 2-3 client goroutines call the circuit map "concurrently".
+// Exactly one goroutine runs at any time: a client runs until it reaches the
+// entry of a database transaction (SimKV.OnTx) or the return of its call, then
+// parks and hands control back to the scheduler, which picks the next move
+// from the tape. Every check-then-write window of CommitCircuits,
+// OpenCircuits, TrimOpenCircuits and DeleteCircuits is therefore a scheduling
+// point, and the schedule replays exactly.
+//
+// What the clients are allowed to do concurrently follows the threading of
+// lnd: one link per channel (CommitCircuits/DeleteCircuits for its incoming
+// keys, OpenCircuits/TrimOpenCircuits for its outgoing keys, one call at a
+// time), any number of senders of local payments (channel 0, distinct keys),
+// and the forwarder issuing CloseCircuit/FailCircuit and lookups at any
+// moment. Responses are only generated for HTLCs that could have them.
+//
+// Oracles: the invoke/return history must be linearizable with respect to the
+// sequential specification (porcupine); the two run-long invariants; the
+// durable state after a crash at any scheduling point or after a clean drain
+// must be exactly what the completed calls persisted.
+
+type rop struct {
+	in     Input
+	client int
+	role   int // channel whose link issued it, -1: forwarder
+	call   int64
+	ret    int64
+	out    Output
+	done   bool
+	dest   []int // commit: mailbox the Add goes to, per position
+	nids   int   // open: ids reserved
+}
+
+type rclient struct {
+	id     int
+	req    chan *rop
+	resume chan struct{}
+	op     *rop
+	parked bool
+}
+
+const (
+	evPark = iota
+	evReturn
+	evPanic
+)
+
+type revent struct {
+	c     *rclient
+	kind  int
+	out   Output
+	pv    interface{}
+	stack string
+}
+
+type kinfo struct {
+	pending      bool
+	out          int
+	closedOK     bool
+	commitFailed bool
+	routed       int
+	failIssued   bool
+	opening      bool
+}
+
+// Race is the multi-client scheduler.
+type Race struct {
+	R   *simcore.Run
+	W   *World
+	Seq *Seq // prelude driver; its invariant bookkeeping is reused
+
+	clients []*rclient
+	events  chan revent
+	cur     *rclient
+	crashed bool
+	wg      sync.WaitGroup
+
+	seq  int64
+	hist []*rop
+	init MState
+	D    DState
+
+	kn       [NInKeys]kinfo
+	nextID   [MaxCh + 1]int
+	roleBusy [MaxCh + 1]bool
+	keyBusy  [NInKeys]bool // channel-0 keys referenced by an in-flight commit/delete
+
+	overlaps int
+	maxOps   int
+	crashAt  int64
+}
+
+// RunRace is one simulated execution of the race arm.
+func RunRace(r *simcore.Run, thorough bool) {
+	t := r.Tape
+	nCh := 2 + t.CfgDraw(2)
+	nIn := 4 + t.CfgDraw(3)
+	nClients := 2 + t.CfgDraw(2)
+	prelude := []int{0, 6, 14}[t.CfgDraw(3)]
+	endCrash := t.CfgDraw(2) == 1
+	maxOps := 20 + 4*t.CfgDraw(5) // <= 36 calls + snapshot <= 40
+	preRestart := t.CfgDraw(2) == 1
+
+	s := &Seq{R: r, Strict: true}
+	s.K = drawKnobs(t, false)
+	s.K.chanW, s.K.restartW = 0, 0
+	s.W = NewWorld(r, nCh, nIn)
+	s.W.Env.TrimPendingClose = true
+	s.M, s.D = newMState(), newDState()
+	r.Arm = "race"
+	if endCrash {
+		r.Arm = "race/crash"
+	}
+	r.Logf("config: arm=%s nCh=%d nIn=%d clients=%d prelude=%d preludeRestart=%v maxOps=%d", r.Arm, nCh, nIn, nClients, prelude, preRestart, maxOps)
+
+	// Prelude: a strict sequential history (fully model-checked) to start
+	// the race from a populated map, optionally across a restart so that
+	// LoadedFromDisk circuits exist.
+	for i := 0; i < prelude && r.Step(); i++ {
+		s.step()
+	}
+	if prelude > 0 && preRestart {
+		if r.Step() {
+			r.Kind("prelude-restart")
+		}
+		s.restart(0, 0)
+	}
+
+	rc := &Race{R: r, W: s.W, Seq: s, events: make(chan revent, 16), init: s.M, D: s.D, maxOps: maxOps}
+	for ik := range rc.kn {
+		p := s.M.P[ik]
+		rc.kn[ik] = kinfo{pending: p.Present, out: int(p.Out), closedOK: p.Closed, commitFailed: s.commitFailed[ik], routed: s.routed[ik]}
+		if !p.Present {
+			rc.kn[ik].out = -1
+		}
+	}
+	rc.nextID = s.nextID
+	rc.start(nClients)
+	rc.loop(endCrash)
+}
+
+func (rc *Race) start(n int) {
+	w := rc.W
+	w.onTx = func(write bool) {
+		c := rc.cur
+		if c == nil || rc.crashed {
+			return
+		}
+		rc.events <- revent{c: c, kind: evPark}
+		<-c.resume
+	}
+	for i := 0; i < n; i++ {
+		c := &rclient{id: i, req: make(chan *rop), resume: make(chan struct{})}
+		rc.clients = append(rc.clients, c)
+		rc.wg.Add(1)
+		go rc.clientLoop(c)
+	}
+	rc.R.Cleanup(rc.shutdown)
+}
+
+func (rc *Race) clientLoop(c *rclient) {
+	defer rc.wg.Done()
+	for op := range c.req {
+		func() {
+			defer func() {
+				if p := recover(); p != nil {
+					rc.events <- revent{c: c, kind: evPanic, pv: p, stack: string(debug.Stack())}
+				}
+			}()
+			out := rc.W.Exec(op.in)
+			rc.events <- revent{c: c, kind: evReturn, out: out}
+		}()
+	}
+}
+
+// shutdown releases every parked client (the database is fenced, so their
+// transactions fail) and waits for the goroutines to end. Runs on every exit
+// path, including violations.
+func (rc *Race) shutdown() {
+	rc.crashed = true
+	rc.W.onTx = nil
+	rc.W.KV.Fence()
+	for _, c := range rc.clients {
+		if c.parked {
+			c.parked = false
+			c.resume <- struct{}{}
+		}
+		close(c.req)
+	}
+	done := make(chan struct{})
+	go func() { rc.wg.Wait(); close(done) }()
+	select {
+	case <-done:
+	case <-time.After(10 * time.Second):
+	}
+}
+
+func (rc *Race) wait() revent {
+	tm := time.NewTimer(60 * time.Second)
+	defer tm.Stop()
+	select {
+	case ev := <-rc.events:
+		return ev
+	case <-tm.C:
+		rc.R.Fail("stuck", "a circuit map call did not reach a database transaction or return within 60 s of real time while every other client was parked (lock held across a transaction?)")
+	}
+	panic("unreachable")
+}
+
+func panicFromHarness(stack string) bool {
+	lines := strings.Split(stack, "\n")
+	seen := false
+	for _, l := range lines {
+		if strings.HasPrefix(l, "panic(") {
+			seen = true
+			continue
+		}
+		if !seen || strings.HasPrefix(l, "\t") || l == "" || strings.HasPrefix(l, "runtime.") {
+			continue
+		}
+		return strings.HasPrefix(l, "verif/")
+	}
+	return true
+}
+
+// run hands the processor to client c (either starting op or resuming it) and
+// waits until it parks or returns.
+func (rc *Race) run(c *rclient, op *rop) {
+	rc.cur = c
+	if op != nil {
+		c.op = op
+		rc.seq++
+		op.call = rc.seq
+		op.client = c.id
+		rc.hist = append(rc.hist, op)
+		c.req <- op
+	} else {
+		c.parked = false
+		c.resume <- struct{}{}
+	}
+	ev := rc.wait()
+	rc.cur = nil
+	if ev.c != c {
+		rc.R.Harness("event from client %d while client %d runs", ev.c.id, c.id)
+	}
+	switch ev.kind {
+	case evPark:
+		c.parked = true
+	case evReturn:
+		rc.seq++
+		op := c.op
+		c.op = nil
+		op.ret = rc.seq
+		op.out = ev.out
+		op.done = true
+		if !rc.crashed {
+			rc.completed(op)
+		}
+	case evPanic:
+		if panicFromHarness(ev.stack) {
+			panic(ev.pv)
+		}
+		rc.R.Fail("PANIC", "panic in code under test during %s: %v\n%s", c.op.in, ev.pv, ev.stack)
+	}
+}
+
+func (rc *Race) idle() *rclient {
+	for _, c := range rc.clients {
+		if c.op == nil {
+			return c
+		}
+	}
+	return nil
+}
+
+func (rc *Race) inflight() int {
+	n := 0
+	for _, c := range rc.clients {
+		if c.op != nil {
+			n++
+		}
+	}
+	return n
+}
+
+type rcand struct {
+	kind   string
+	arg    int
+	weight int
+}
+
+func (rc *Race) loop(endCrash bool) {
+	r, w := rc.R, rc.W
+	crashNow := false
+	for steps := 0; steps < 400 && r.Step(); steps++ {
+		var ev []rcand
+		for i, c := range rc.clients {
+			if c.parked {
+				ev = append(ev, rcand{"resume", i, 4})
+			}
+		}
+		if rc.idle() != nil && len(rc.hist) < rc.maxOps {
+			for a := 0; a <= w.NCh; a++ {
+				if a == 0 || (w.Env.Status[a] == ChOpen && !rc.roleBusy[a]) {
+					ev = append(ev, rcand{"commit", a, 2})
+					if len(rc.deleteCands(a)) > 0 {
+						ev = append(ev, rcand{"delete", a, 2})
+					}
+				}
+				if a >= 1 && w.Env.Status[a] == ChOpen && !rc.roleBusy[a] {
+					if len(rc.openCands(a)) > 0 && rc.nextID[a] < MaxOut-3 {
+						ev = append(ev, rcand{"open", a, 4})
+					}
+					ev = append(ev, rcand{"flap", a, 1})
+				}
+			}
+			ev = append(ev, rcand{"close", 0, 4}, rcand{"fail", 0, 3}, rcand{"lookup", 0, 2})
+		}
+		for c := 1; c <= w.NCh; c++ {
+			if w.Env.Status[c] == ChOpen && !rc.roleBusy[c] && rc.nextID[c] > w.Env.Next[c] {
+				ev = append(ev, rcand{"sign", c, 2})
+			}
+		}
+		if endCrash && rc.inflight() > 0 && len(rc.hist) >= 6 {
+			ev = append(ev, rcand{"crash", 0, 1})
+		}
+		if len(ev) == 0 {
+			break
+		}
+		total := 0
+		for _, e := range ev {
+			total += e.weight
+		}
+		pick := r.Draw(total)
+		var e rcand
+		for _, c := range ev {
+			if pick < c.weight {
+				e = c
+				break
+			}
+			pick -= c.weight
+		}
+		before := rc.inflight()
+		switch e.kind {
+		case "resume":
+			c := rc.clients[e.arg]
+			r.Kind(fmt.Sprintf("resume:%d", c.id))
+			r.Logf("c%d resumes %s", c.id, c.op.in)
+			rc.run(c, nil)
+		case "sign":
+			r.Kind(fmt.Sprintf("sign:%d", e.arg))
+			w.Sign(e.arg, rc.nextID[e.arg])
+			for ik := range rc.kn {
+				if k := &rc.kn[ik]; k.pending && k.out >= 0 && okCh(k.out) == e.arg {
+					k.routed = 0
+				}
+			}
+			r.Logf("sign ch%d: NextLocalHtlcIndex=%d", e.arg, rc.nextID[e.arg])
+		case "crash":
+			r.Kind("crash")
+			crashNow = true
+		default:
+			op := rc.makeOp(e)
+			if op == nil {
+				r.Kind("noop")
+				continue
+			}
+			c := rc.idle()
+			r.Kind(op.in.Kind.String())
+			r.Logf("c%d calls %s", c.id, op.in)
+			if before > 0 {
+				rc.overlaps++
+			}
+			rc.run(c, op)
+		}
+		if crashNow {
+			break
+		}
+		rc.noteState()
+	}
+
+	if crashNow {
+		rc.finishCrash()
+	} else {
+		rc.finishClean()
+	}
+	r.Nontrivial = rc.overlaps >= 2
+}
+
+// makeOp draws the parameters of a new call under the threading discipline.
+func (rc *Race) makeOp(e rcand) *rop {
+	r, w := rc.R, rc.W
+	switch e.kind {
+	case "commit":
+		a := e.arg
+		n := 1 + r.Draw(3)
+		op := &rop{role: a, in: Input{Kind: OpCommit}}
+		for i := 0; i < n; i++ {
+			ik := ikOf(a, r.Draw(w.NIn))
+			if a == 0 && rc.keyBusy[ik] {
+				continue
+			}
+			op.in.Keys = append(op.in.Keys, ik)
+			op.dest = append(op.dest, 1+r.Draw(w.NCh))
+		}
+		if len(op.in.Keys) == 0 {
+			return nil
+		}
+		op.in.Objs = w.PeekObj(len(op.in.Keys))
+		rc.acquire(op)
+		return op
+
+	case "delete":
+		a := e.arg
+		cands := rc.deleteCands(a)
+		n := 1 + r.Draw(2)
+		op := &rop{role: a, in: Input{Kind: OpDelete}}
+		for i := 0; i < n; i++ {
+			op.in.Keys = append(op.in.Keys, cands[r.Draw(len(cands))])
+		}
+		rc.acquire(op)
+		return op
+
+	case "open":
+		c := e.arg
+		cands := rc.openCands(c)
+		n := 1 + r.Draw(min(2, len(cands)))
+		op := &rop{role: c, nids: n, in: Input{Kind: OpOpen}}
+		for i := 0; i < n; i++ {
+			j := i + r.Draw(len(cands)-i)
+			cands[i], cands[j] = cands[j], cands[i]
+			op.in.Ks = append(op.in.Ks, ksPair{In: cands[i], Out: okOf(c, rc.nextID[c]+i)})
+			rc.kn[cands[i]].opening = true
+		}
+		rc.nextID[c] += n
+		rc.acquire(op)
+		return op
+
+	case "flap":
+		c := e.arg
+		rc.nextID[c] = w.Env.Next[c]
+		op := &rop{role: c, in: Input{Kind: OpTrim, Ch: c, Start: w.Env.Next[c]}}
+		rc.acquire(op)
+		return op
+
+	case "close":
+		// only HTLCs that reached a commitment can be answered by the peer;
+		// duplicates and never-used keys are fair game
+		var cands []int
+		for c := 1; c <= w.NCh; c++ {
+			for id := 0; id < w.Env.Next[c]; id++ {
+				cands = append(cands, okOf(c, id))
+			}
+			if rc.nextID[c]+4 < MaxOut {
+				cands = append(cands, okOf(c, rc.nextID[c]+4))
+			}
+		}
+		// favour circuits that are open right now: that is where settle,
+		// fail and delete compete
+		for ik := range rc.kn {
+			if k := rc.kn[ik]; k.pending && k.out >= 0 && okID(k.out) < w.Env.Next[okCh(k.out)] {
+				cands = append(cands, k.out, k.out, k.out)
+			}
+		}
+		if len(cands) == 0 {
+			return nil
+		}
+		return &rop{role: -1, in: Input{Kind: OpClose, Keys: []int{cands[r.Draw(len(cands))]}}}
+
+	case "fail":
+		var cands []int
+		for ch := 0; ch <= w.NCh; ch++ {
+			for id := 0; id < w.NIn; id++ {
+				ik := ikOf(ch, id)
+				k := rc.kn[ik]
+				if (ch == 0 && rc.keyBusy[ik]) || (ch >= 1 && rc.roleBusy[ch]) {
+					continue // its link is in the middle of a call
+				}
+				switch {
+				case k.opening:
+					// the outgoing link is binding it right now: the
+					// mailbox no longer owns the packet
+				case k.pending && k.out >= 0:
+					cands = append(cands, ik, ik, ik) // competes with the peer's settle/fail
+				case k.pending:
+					cands = append(cands, ik, ik)
+				default:
+					cands = append(cands, ik)
+				}
+			}
+		}
+		if len(cands) == 0 {
+			return nil
+		}
+		ik := cands[r.Draw(len(cands))]
+		if k := &rc.kn[ik]; k.pending && k.out < 0 {
+			// FailAdd removes the packet from the mailbox: the outgoing
+			// link will not open this circuit afterwards.
+			k.routed = 0
+			k.failIssued = true
+		}
+		return &rop{role: -1, in: Input{Kind: OpFail, Keys: []int{ik}}}
+
+	case "lookup":
+		switch r.Draw(5) {
+		case 0:
+			return &rop{role: -1, in: Input{Kind: OpNumPending}}
+		case 1:
+			return &rop{role: -1, in: Input{Kind: OpNumOpen}}
+		case 2:
+			c := 1 + r.Draw(w.NCh)
+			return &rop{role: -1, in: Input{Kind: OpLookupOut, Keys: []int{okOf(c, r.Draw(min(MaxOut, rc.nextID[c]+2)))}}}
+		default:
+			return &rop{role: -1, in: Input{Kind: OpLookupIn, Keys: []int{ikOf(r.Draw(w.NCh+1), r.Draw(w.NIn))}}}
+		}
+	}
+	return nil
+}
+
+func (rc *Race) acquire(op *rop) {
+	if op.role >= 1 {
+		rc.roleBusy[op.role] = true
+	}
+	if op.role == 0 {
+		for _, ik := range op.in.Keys {
+			rc.keyBusy[ik] = true
+		}
+	}
+}
+
+func (rc *Race) release(op *rop) {
+	if op.role >= 1 {
+		rc.roleBusy[op.role] = false
+	}
+	if op.role == 0 {
+		for _, ik := range op.in.Keys {
+			rc.keyBusy[ik] = false
+		}
+	}
+}
+
+func (rc *Race) openCands(c int) []int {
+	var l []int
+	for ik := range rc.kn {
+		k := rc.kn[ik]
+		if k.pending && k.out < 0 && k.routed == c && !k.closedOK && !k.failIssued && !k.opening {
+			if ikCh(ik) == 0 && rc.keyBusy[ik] {
+				continue
+			}
+			l = append(l, ik)
+		}
+	}
+	return l
+}
+
+func (rc *Race) deleteCands(a int) []int {
+	var l []int
+	for id := 0; id < rc.W.NIn; id++ {
+		ik := ikOf(a, id)
+		k := rc.kn[ik]
+		if a == 0 && rc.keyBusy[ik] {
+			continue
+		}
+		if k.opening {
+			continue
+		}
+		if k.pending && k.out >= 0 && okID(k.out) >= rc.W.Env.Next[okCh(k.out)] {
+			// open towards an HTLC that never reached a commitment: no
+			// response can exist, and deleting it would break the "no
+			// disjoint segments" precondition of TrimOpenCircuits
+			continue
+		}
+		if !k.pending || k.closedOK || k.commitFailed {
+			l = append(l, ik)
+		}
+	}
+	return l
+}
+
+// completed digests the result of a call that returned: run-long invariants,
+// the exact durable state, and what the clients may do next.
+func (rc *Race) completed(op *rop) {
+	r := rc.R
+	in, out := op.in, op.out
+	r.Logf("c%d returns %s -> %s", op.client, in, out)
+	rc.release(op)
+	s := rc.Seq
+	switch in.Kind {
+	case OpCommit:
+		if out.Err != ENil {
+			r.Fail("result/commit", "%s failed on a healthy database: %s", in, out)
+		}
+		for i, ik := range in.Keys {
+			if i >= len(out.Cls) {
+				break
+			}
+			switch out.Cls[i] {
+			case 'A':
+				if s.fwdLive[ik] {
+					r.Fail("double-forward", "%s: circuit %s returned in Adds although an earlier Add of the same incoming HTLC was never deleted (result %s)", in, ikStr(ik), out.Cls)
+				}
+				s.fwdLive[ik] = true
+				rc.D.Add[ik] = in.Objs[i]
+				rc.kn[ik] = kinfo{pending: true, out: -1, routed: op.dest[i]}
+			case 'F':
+				rc.kn[ik].commitFailed = true
+			}
+		}
+	case OpOpen:
+		for _, k := range in.Ks {
+			rc.kn[k.In].opening = false
+		}
+		if out.Err == ENil {
+			for _, k := range in.Ks {
+				rc.D.Ks[k.Out] = int16(k.In)
+				rc.kn[k.In].out = k.Out
+			}
+		} else {
+			rc.nextID[op.role] -= op.nids
+		}
+	case OpTrim:
+		if out.Err == ENil {
+			for ik := range rc.kn {
+				k := &rc.kn[ik]
+				if k.pending && k.out >= 0 && okCh(k.out) == in.Ch && okID(k.out) >= in.Start {
+					rc.D.Ks[k.out] = -1
+					k.out = -1
+				}
+			}
+		}
+	case OpDelete:
+		if out.Err == ENil {
+			for _, ik := range in.Keys {
+				rc.D.Add[ik] = 0
+				for ok := range rc.D.Ks {
+					if int(rc.D.Ks[ok]) == ik {
+						rc.D.Ks[ok] = -1
+					}
+				}
+				rc.kn[ik] = kinfo{out: -1}
+				s.fwdLive[ik] = false
+				s.respLive[ik] = false
+			}
+		}
+	case OpClose, OpFail:
+		if out.Err == ENil && out.N >= 0 && out.N < NInKeys {
+			if s.respLive[out.N] {
+				r.Fail("double-response", "%s succeeded for circuit %s although a settle/fail was already accepted for it in this process epoch and it was not deleted since", in, ikStr(out.N))
+			}
+			s.respLive[out.N] = true
+			rc.kn[out.N].closedOK = true
+			r.Count("responses_accepted")
+		}
+		if out.Err == ECircuitClosing {
+			r.Count("probe_second_response_rejected")
+		}
+	}
+}
+
+func (rc *Race) noteState() {
+	p, o := 0, 0
+	for ik := range rc.kn {
+		if rc.kn[ik].pending {
+			p++
+			if rc.kn[ik].out >= 0 {
+				o++
+			}
+		}
+	}
+	rc.R.State(fmt.Sprintf("race p%d o%d f%d h%d", p, o, rc.inflight(), len(rc.hist)/4))
+}
+
+// --- endings -----------------------------------------------------------------
+
+func (rc *Race) finishClean() {
+	r := rc.R
+	// drain: every parked call runs to completion, in a tape-chosen order
+	for rc.inflight() > 0 {
+		var parked []*rclient
+		for _, c := range rc.clients {
+			if c.parked {
+				parked = append(parked, c)
+			}
+		}
+		if len(parked) == 0 {
+			r.Harness("calls in flight but nobody parked")
+		}
+		c := parked[0]
+		if r.Step() {
+			c = parked[r.Draw(len(parked))]
+			r.Kind(fmt.Sprintf("drain:%d", c.id))
+		}
+		r.Logf("c%d resumes %s (drain)", c.id, c.op.in)
+		rc.run(c, nil)
+	}
+	// one quiescent read of everything
+	snap := &rop{role: -1, in: Input{Kind: OpSnapshot}}
+	rc.run(rc.clients[0], snap)
+	rc.checkLinearizable()
+
+	// the database holds exactly what the completed calls persisted
+	got := rc.W.DiskView("race")
+	want := Project(rc.D)
+	if !sameView(r, got, want.Snapshot(), "after the concurrent phase") {
+		r.Fail("disk-mismatch", "after all calls returned the database holds\n got:  %s\n want: %s\n%s", got, want.Snapshot(), rc.dump())
+	}
+	rc.restartCheck("clean")
+}
+
+func (rc *Race) finishCrash() {
+	r := rc.R
+	n := rc.inflight()
+	r.Count("fault_crash_mid_call")
+	r.Logf("node crashes with %d calls in flight", n)
+	rc.crashed = true
+	rc.crashAt = rc.seq
+	rc.W.KV.Fence()
+	for _, c := range rc.clients {
+		if c.parked {
+			rc.run(c, nil)
+		}
+	}
+	rc.checkLinearizable()
+	rc.restartCheck("crash")
+}
+
+func (rc *Race) restartCheck(how string) {
+	r, w := rc.R, rc.W
+	w.onTx = nil
+	for _, c := range rc.clients {
+		if c.op != nil && !c.op.done {
+			r.Harness("client %d still busy at restart", c.id)
+		}
+	}
+	if err := w.RebootWith(nil); err != nil {
+		r.Fail("restart-error", "NewCircuitMap failed after the concurrent phase (%s): %v", how, err)
+	}
+	_, m, info := Restart(rc.D, w.Env)
+	got := w.SnapshotOf(w.CM)
+	if !sameView(r, got, m.Snapshot(), "after restart") {
+		r.Fail("restart-state", "after the concurrent phase (%s) and a restart the lookup API shows\n got:  %s\n want: %s\n env: next=%v\n%s", how, got, m.Snapshot(), w.Env.Next[:w.NCh+1], rc.dump())
+	}
+	if info.Trimmed > 0 {
+		r.Count("probe_restart_rolled_back_uncommitted")
+	}
+	r.Count("restarts")
+	r.Logf("restart ok: %s", got)
+}
+
+// --- linearizability -----------------------------------------------------------
+
+func (rc *Race) checkLinearizable() {
+	r := rc.R
+	init := rc.init
+	model := porcupine.Model{
+		Init: func() interface{} { return init },
+		Step: func(state, input, output interface{}) (bool, interface{}) {
+			next, want := Step(state.(MState), input.(Input), false)
+			got := output.(Output)
+			if !Accepts(want, got) {
+				return false, state
+			}
+			if got.Unknown {
+				return true, next
+			}
+			// a failed call (not possible on a healthy database for the
+			// mutating calls) leaves the state as the model says
+			return true, next
+		},
+		Equal: func(a, b interface{}) bool { return a.(MState) == b.(MState) },
+	}
+	ops := make([]porcupine.Operation, 0, len(rc.hist))
+	for _, op := range rc.hist {
+		o := porcupine.Operation{ClientId: op.client, Input: op.in, Call: op.call}
+		if op.done && !(rc.crashed && op.ret > rc.crashSeq()) {
+			o.Output, o.Return = op.out, op.ret
+		} else {
+			o.Output, o.Return = Output{Unknown: true, N: -1}, rc.seq+10
+		}
+		ops = append(ops, o)
+	}
+	res := porcupine.CheckOperationsTimeout(model, ops, 30*time.Second)
+	switch res {
+	case porcupine.Ok:
+		r.Count("linearizable_histories")
+		r.Add("linearizability_ops", int64(len(ops)))
+	case porcupine.Unknown:
+		r.Count("linearizability_unknown")
+	case porcupine.Illegal:
+		r.Fail("not-linearizable", "no sequential order of the %d concurrent calls explains their results under the circuit map's contract\n%s", len(ops), rc.dump())
+	}
+}
+
+// crashSeq is the sequence number at which the node crashed: calls returning
+// after it returned into a dead process.
+func (rc *Race) crashSeq() int64 {
+	if rc.crashAt == 0 {
+		return 1 << 60
+	}
+	return rc.crashAt
+}
+
+func (rc *Race) dump() string {
+	var b strings.Builder
+	fmt.Fprintf(&b, " initial state: %s\n", rc.init.Snapshot())
+	h := append([]*rop(nil), rc.hist...)
+	sort.Slice(h, func(i, j int) bool { return h[i].call < h[j].call })
+	for _, op := range h {
+		if op.done {
+			fmt.Fprintf(&b, "  [%3d,%3d] c%d %s -> %s\n", op.call, op.ret, op.client, op.in, op.out)
+		} else {
+			fmt.Fprintf(&b, "  [%3d,  ?] c%d %s (in flight)\n", op.call, op.client, op.in)
+		}
+	}
+	return b.String()
+}
